@@ -115,17 +115,21 @@ mut("c20-no-stale-fallback", "C20", "cli/src/config.rs",
     "    if let (true, Ok(file)) = (expiration.is_none(), File::open(&path)) {\n        // Indicate error even though we're returning success.\n",
     "stale fallback only when fetch_on_startup is off")
 mut("c20-currency-error-fatal", "C20", "cli/src/config.rs",
-    "                eprintln!(\"{:?}\", err.wrap_err(\"Failed to load currency data\"));\n",
+    "                let _ = writeln!(\n                    std::io::stderr(),\n                    \"{:?}\",\n                    err.wrap_err(\"Failed to load currency data\")\n                );\n",
     "                return Err(err.wrap_err(\"Failed to load currency data\"));\n",
     "a currency failure makes load() fail: rink does not start")
 mut("c20-revert-fix-2", "C20", "cli/src/config.rs",
-    "                eprintln!(\"{:?}\", err.wrap_err(\"Failed to load currency data\"));\n",
+    "                let _ = writeln!(\n                    std::io::stderr(),\n                    \"{:?}\",\n                    err.wrap_err(\"Failed to load currency data\")\n                );\n",
     "                println!(\"{:?}\", err.wrap_err(\"Failed to load currency data\"));\n",
     "revert (half of) the second C20 fix: a currency failure is reported on stdout again, which in the sandbox child is the frame pipe (needs a start-up with sandboxing enabled)")
 mut("c20-stale-warning-on-stdout", "C20", "cli/src/config.rs",
-    "        // Indicate error even though we're returning success.\n        eprintln!(\n",
+    "        // Indicate error even though we're returning success.\n        let _ = writeln!(\n            std::io::stderr(),\n",
     "        // Indicate error even though we're returning success.\n        println!(\n",
     "revert (the other half of) the second C20 fix: the stale-fallback warning goes to stdout (needs a start-up with sandboxing enabled, a stale readable cache and a failing refresh)")
+mut("c20-revert-fix-3", "C20", "cli/src/config.rs",
+    "        // Indicate error even though we're returning success.\n        let _ = writeln!(\n            std::io::stderr(),\n",
+    "        // Indicate error even though we're returning success.\n        eprintln!(\n",
+    "revert the third C20 fix: the stale-fallback warning is written with eprintln! again, which panics when stderr cannot be written (needs the unwritable-stderr fault and a failing refresh)")
 mut("c20-no-timeout", "C20", "cli/src/config.rs",
     "    easy.timeout(timeout)?;\n",
     "    let _ = timeout;\n",
